@@ -154,6 +154,7 @@ type Exec struct {
 	depth    int
 	frozen   map[*MapObj]bool
 	builders int
+	known    map[string]bool
 	curDeferFrame []*frame
 	locks       map[*Val]bool
 	frozenCells map[*Val]bool
@@ -185,6 +186,7 @@ func (ex *Exec) resetPath(prefix []uint16) {
 	ex.instrs = 0
 	ex.dom = map[int]*byteset{}
 	ex.taint = map[int]bool{}
+	ex.known = map[string]bool{}
 	ex.stack = ex.stack[:0]
 	ex.notes = nil
 	ex.covers = nil
@@ -212,7 +214,7 @@ func (ex *Exec) initGlobals() {
 // ---------------------------------------------------------------- symbolic variables
 
 func (ex *Exec) freshVar(kind string, w int) *Term {
-	name := fmt.Sprintf("v%d", ex.nsym)
+	name := fmt.Sprintf("v%dw%d", ex.nsym, w)
 	t := mkVar(name, w, ex.nsym)
 	ex.nsym++
 	ex.vars = append(ex.vars, varInfo{kind: kind, t: t})
@@ -280,6 +282,12 @@ func (ex *Exec) feasibleBoth(c *Term) (ft, ff bool) {
 // addPC records a decided condition in the path condition (and byte domains).
 func (ex *Exec) addPC(c *Term) {
 	ex.pc = append(ex.pc, c)
+	ex.known[c.s] = true
+	if c.Op == "not" {
+		ex.known[c.Args[0].s] = false
+	} else {
+		ex.known["(not "+c.s+")"] = false
+	}
 	if c.vid >= 0 && c.vw == 8 && !ex.taint[c.vid] && c.size < 64 {
 		d := ex.domOf(c.vid)
 		for x := 0; x < 256; x++ {
@@ -296,9 +304,51 @@ func (ex *Exec) addPC(c *Term) {
 }
 
 // branch decides a boolean, forking if both outcomes are feasible.
+func (ex *Exec) fastEligible(t *Term) bool {
+	return t.vid >= 0 && t.vw == 8 && !ex.taint[t.vid] && t.size < 64
+}
+
+func (ex *Exec) allFast(ts []*Term) bool {
+	if len(ts) > 16 {
+		return false
+	}
+	for _, t := range ts {
+		if t.vid == -1 {
+			continue
+		}
+		if !ex.fastEligible(t) {
+			return false
+		}
+	}
+	return true
+}
+
 func (ex *Exec) branch(b Bool) bool {
 	if b.T == nil {
 		return b.C
+	}
+	// a conjunction / disjunction of single-byte conditions is decided one
+	// conjunct at a time (short-circuit), so that every decision stays a
+	// single-variable atom served exactly by the byte domains
+	if t := b.T; t.vid == -2 {
+		neg := false
+		if t.Op == "not" {
+			t, neg = t.Args[0], true
+		}
+		if (t.Op == "and" || t.Op == "or") && ex.allFast(t.Args) {
+			res := t.Op == "and"
+			for _, a := range t.Args {
+				if ex.branch(mkBool(a)) != (t.Op == "and") {
+					res = t.Op != "and"
+					break
+				}
+			}
+			return res != neg
+		}
+	}
+	// a condition already decided on this path is not a decision
+	if v, ok := ex.known[b.T.s]; ok {
+		return v
 	}
 	k := ex.nd
 	ex.nd++
